@@ -10,6 +10,7 @@ package main
 
 import (
 	"go/ast"
+	"go/printer"
 	"go/token"
 	"sort"
 	"strconv"
@@ -279,7 +280,8 @@ func c20ScannerTable(s *source, rel string) ([]string, bool) {
 // structures as header / body / "}"). Used for the small methods in which every token matters: which field a
 // HasLeadingCommentGroup / CommentGroup / End / Pos method looks at, the line and comment logic of
 // Writer.write, transfer*TokenNode, Parser.nextToken and the scanner's comment functions.
-func c20Full(s *source, fd *ast.FuncDecl) []string {
+func c20Full(s0 *source, fd *ast.FuncDecl) []string {
+	s := c20Texter{s0}
 	var out []string
 	var walkStmt func(st ast.Stmt)
 	walkBlock := func(b *ast.BlockStmt) {
@@ -375,6 +377,16 @@ func c20Full(s *source, fd *ast.FuncDecl) []string {
 	return out
 }
 
+// c20Texter: source text of a node, literal-preserving in exact mode
+type c20Texter struct{ s *source }
+
+func (t c20Texter) src(n ast.Node) string {
+	if c20ExactMode {
+		return c20Exact(t.s, n)
+	}
+	return t.s.src(n)
+}
+
 func (e *emitter) c20FullDef(s *source, rel, goName, lean string) {
 	fd := s.findFunc(rel, goName)
 	if fd == nil {
@@ -405,6 +417,420 @@ func (e *emitter) c20Accessors(s *source, rel, recv, lean string) {
 	}
 	e.stringList(lean, "comment / position accessors of `"+recv+"` in "+rel, out)
 }
+
+
+// ---------------------------------------------------------------- round 4: the scanner, token.go, format.File, AST.Format
+
+// c20Exact prints a node with white space collapsed OUTSIDE string / rune literals only (s.src collapses it
+// everywhere, so `"\n "` and `"\n  "` would be the same text).
+func c20Exact(s *source, n ast.Node) string {
+	var b strings.Builder
+	printer.Fprint(&b, s.fset, n)
+	in := []rune(b.String())
+	var out []rune
+	var q rune // open literal delimiter
+	sp := false
+	for i := 0; i < len(in); i++ {
+		r := in[i]
+		if q != 0 {
+			out = append(out, r)
+			if r == '\\' && q != '`' && i+1 < len(in) {
+				i++
+				out = append(out, in[i])
+				continue
+			}
+			if r == q {
+				q = 0
+			}
+			continue
+		}
+		if r == ' ' || r == '\t' || r == '\n' || r == '\r' {
+			sp = true
+			continue
+		}
+		if sp && len(out) > 0 {
+			out = append(out, ' ')
+		}
+		sp = false
+		if r == '"' || r == '`' || r == '\'' {
+			q = r
+		}
+		out = append(out, r)
+	}
+	return string(out)
+}
+
+// c20Pred translates a rune predicate of the scanner (`return <bool expr over b>`, optionally preceded by
+// `if <cond> { return true }` and by ifs without return, whose effect is not part of the value) into a Lean
+// function `Nat -> Bool`. Subset: && || ! ( ) comparisons of the parameter with rune / int literals, calls of
+// other predicates `s.isX(b)`.
+func c20Pred(s *source, fd *ast.FuncDecl) (string, bool) {
+	if fd.Type.Params == nil || len(fd.Type.Params.List) != 1 || len(fd.Type.Params.List[0].Names) != 1 {
+		return "", false
+	}
+	param := fd.Type.Params.List[0].Names[0].Name
+	ok := true
+	var tr func(e ast.Expr) string
+	lit := func(e ast.Expr) (string, bool) {
+		bl, isLit := e.(*ast.BasicLit)
+		if !isLit {
+			return "", false
+		}
+		switch bl.Kind {
+		case token.CHAR:
+			r, _, _, err := strconv.UnquoteChar(bl.Value[1:len(bl.Value)-1], '\'')
+			if err != nil {
+				return "", false
+			}
+			return strconv.Itoa(int(r)), true
+		case token.INT:
+			return bl.Value, true
+		}
+		return "", false
+	}
+	tr = func(e ast.Expr) string {
+		switch x := e.(type) {
+		case *ast.ParenExpr:
+			return "(" + tr(x.X) + ")"
+		case *ast.UnaryExpr:
+			if x.Op == token.NOT {
+				return "(!" + tr(x.X) + ")"
+			}
+		case *ast.BinaryExpr:
+			switch x.Op {
+			case token.LAND:
+				return "(" + tr(x.X) + " && " + tr(x.Y) + ")"
+			case token.LOR:
+				return "(" + tr(x.X) + " || " + tr(x.Y) + ")"
+			case token.GEQ, token.LEQ, token.EQL, token.NEQ, token.LSS, token.GTR:
+				id, isID := x.X.(*ast.Ident)
+				v, isLit := lit(x.Y)
+				if isID && id.Name == param && isLit {
+					op := map[token.Token]string{token.GEQ: "≥", token.LEQ: "≤", token.EQL: "=", token.NEQ: "≠", token.LSS: "<", token.GTR: ">"}[x.Op]
+					return "decide (" + param + " " + op + " " + v + ")"
+				}
+			}
+		case *ast.CallExpr:
+			if sel, isSel := x.Fun.(*ast.SelectorExpr); isSel && len(x.Args) == 1 {
+				if id, isID := x.Args[0].(*ast.Ident); isID && id.Name == param {
+					return "sc_" + sel.Sel.Name + " " + param
+				}
+			}
+		}
+		ok = false
+		return "false"
+	}
+	var ors []string
+	for i, st := range fd.Body.List {
+		switch x := st.(type) {
+		case *ast.IfStmt:
+			if len(x.Body.List) == 1 {
+				if r, isRet := x.Body.List[0].(*ast.ReturnStmt); isRet {
+					if len(r.Results) == 1 && s.src(r.Results[0]) == "true" && x.Else == nil {
+						ors = append(ors, tr(x.Cond))
+						continue
+					}
+					return "", false
+				}
+			}
+			// an if without return: no influence on the value (pinned by the full statement list)
+			hasRet := false
+			ast.Inspect(x, func(n ast.Node) bool {
+				if _, isRet := n.(*ast.ReturnStmt); isRet {
+					hasRet = true
+				}
+				return true
+			})
+			if hasRet {
+				return "", false
+			}
+		case *ast.ReturnStmt:
+			if i != len(fd.Body.List)-1 || len(x.Results) != 1 {
+				return "", false
+			}
+			ors = append(ors, tr(x.Results[0]))
+		default:
+			return "", false
+		}
+	}
+	if !ok || len(ors) == 0 {
+		return "", false
+	}
+	return "fun " + param + " => " + strings.Join(ors, " || "), true
+}
+
+func (e *emitter) c20PredDef(s *source, rel, goName, lean string) {
+	fd := s.findFunc(rel, goName)
+	if fd != nil {
+		if body, ok := c20Pred(s, fd); ok {
+			e.printf("/-- `%s` in %s, translated -/\ndef %s : Nat → Bool := %s\n\n", goName, rel, lean, body)
+			return
+		}
+	}
+	e.errors = append(e.errors, "predicate "+goName+" in "+rel+" is outside the translated subset")
+	e.printf("def %s : Nat → Bool := fun _ => false\n\n", lean)
+}
+
+// c20RuneCases: for a `switch s.ch` in the function, the rune cases (as numbers) whose body is `return <call>`
+// with the given callee / token type; emitted as (rune, what) pairs.
+func c20RuneCases(s *source, fd *ast.FuncDecl, what func(body []ast.Stmt) (string, bool)) ([][2]string, bool) {
+	var out [][2]string
+	found := false
+	ast.Inspect(fd.Body, func(n ast.Node) bool {
+		sw, ok := n.(*ast.SwitchStmt)
+		if !ok || found || sw.Tag == nil || s.src(sw.Tag) != "s.ch" {
+			return true
+		}
+		found = true
+		for _, cc := range sw.Body.List {
+			c := cc.(*ast.CaseClause)
+			w, ok := what(c.Body)
+			if !ok {
+				continue
+			}
+			for _, ce := range c.List {
+				bl, isLit := ce.(*ast.BasicLit)
+				if !isLit {
+					continue
+				}
+				v := bl.Value
+				if bl.Kind == token.CHAR {
+					r, _, _, err := strconv.UnquoteChar(v[1:len(v)-1], '\'')
+					if err != nil {
+						continue
+					}
+					v = strconv.Itoa(int(r))
+				}
+				out = append(out, [2]string{v, w})
+			}
+		}
+		return false
+	})
+	return out, found
+}
+
+func (e *emitter) c20PairList(lean, doc string, ps [][2]string) {
+	e.printf("/-- %s -/\ndef %s : List (Nat × String) := [", doc, lean)
+	for i, p := range ps {
+		if i > 0 {
+			e.printf(", ")
+		}
+		e.printf("(%s, %s)", p[0], strconv.Quote(p[1]))
+	}
+	e.printf("]\n\n")
+}
+
+// ---- the duration family, statement by statement, as Lean functions List Char -> Bool × List Char
+// (true = DURATION, the runes not yet read; false = ILLEGAL at the head of the returned list)
+
+type c20Dur struct {
+	s  *source
+	ok bool
+}
+
+func (d *c20Dur) cond(e ast.Expr) string {
+	switch x := e.(type) {
+	case *ast.BinaryExpr:
+		if x.Op == token.LOR {
+			return "(" + d.cond(x.X) + " || " + d.cond(x.Y) + ")"
+		}
+		if (x.Op == token.NEQ || x.Op == token.EQL) && d.s.src(x.X) == "s.ch" {
+			if bl, ok := x.Y.(*ast.BasicLit); ok {
+				v := bl.Value
+				if bl.Kind == token.CHAR {
+					r, _, _, err := strconv.UnquoteChar(v[1:len(v)-1], '\'')
+					if err == nil {
+						v = strconv.Itoa(int(r))
+					}
+				}
+				if x.Op == token.NEQ {
+					return "((sc_cur cs).toNat != " + v + ")"
+				}
+				return "((sc_cur cs).toNat == " + v + ")"
+			}
+		}
+	case *ast.UnaryExpr:
+		if x.Op == token.NOT && d.s.src(x.X) == "s.isDigit(s.ch)" {
+			return "(!sc_isDigit (sc_cur cs).toNat)"
+		}
+	}
+	d.ok = false
+	return "false"
+}
+
+func (d *c20Dur) ret(r *ast.ReturnStmt) string {
+	if len(r.Results) != 1 {
+		d.ok = false
+		return "(false, cs)"
+	}
+	txt := d.s.src(r.Results[0])
+	switch {
+	case txt == "s.illegalToken()":
+		return "(false, cs)"
+	case strings.HasPrefix(txt, "token.Token{ Type: token.DURATION,") || strings.HasPrefix(txt, "token.Token{Type: token.DURATION,"):
+		return "(true, cs)"
+	case strings.HasPrefix(txt, "s.scan") && strings.HasSuffix(txt, "(bgPos)"):
+		return "sc_" + strings.TrimSuffix(strings.TrimPrefix(txt, "s."), "(bgPos)") + " cs"
+	}
+	d.ok = false
+	return "(false, cs)"
+}
+
+// block translates a statement list; every path must end in a return.
+func (d *c20Dur) block(list []ast.Stmt) string {
+	if len(list) == 0 {
+		d.ok = false
+		return "(false, cs)"
+	}
+	st, rest := list[0], list[1:]
+	switch x := st.(type) {
+	case *ast.ExprStmt:
+		if d.s.src(x.X) == "s.readRune()" {
+			return "let cs := cs.tail; " + d.block(rest)
+		}
+	case *ast.ForStmt:
+		if x.Init == nil && x.Post == nil && x.Cond != nil && d.s.src(x.Cond) == "s.isDigit(s.ch)" &&
+			len(x.Body.List) == 1 && d.s.src(x.Body.List[0]) == "s.readRune()" {
+			return "let cs := cs.dropWhile (fun c => sc_isDigit c.toNat); " + d.block(rest)
+		}
+	case *ast.IfStmt:
+		if x.Init == nil && x.Else == nil {
+			return "if " + d.cond(x.Cond) + " then (" + d.block(x.Body.List) + ") else (" + d.block(rest) + ")"
+		}
+	case *ast.ReturnStmt:
+		if len(rest) == 0 {
+			return d.ret(x)
+		}
+	case *ast.SwitchStmt:
+		if x.Tag != nil && d.s.src(x.Tag) == "s.ch" && len(rest) == 0 {
+			dflt := ""
+			var arms []string
+			for _, cc := range x.Body.List {
+				c := cc.(*ast.CaseClause)
+				if c.List == nil {
+					dflt = d.block(c.Body)
+					continue
+				}
+				var cs []string
+				for _, ce := range c.List {
+					bl, ok := ce.(*ast.BasicLit)
+					if !ok || bl.Kind != token.CHAR {
+						d.ok = false
+						continue
+					}
+					r, _, _, _ := strconv.UnquoteChar(bl.Value[1:len(bl.Value)-1], '\'')
+					cs = append(cs, "(sc_cur cs).toNat == "+strconv.Itoa(int(r)))
+				}
+				arms = append(arms, "if "+strings.Join(cs, " || ")+" then ("+d.block(c.Body)+") else ")
+			}
+			if dflt == "" {
+				d.ok = false
+			}
+			return strings.Join(arms, "") + "(" + dflt + ")"
+		}
+	}
+	d.ok = false
+	return "(false, cs)"
+}
+
+func (e *emitter) c20DurDef(s *source, rel, goName string) {
+	lean := "sc_" + strings.TrimPrefix(goName, "Scanner.")
+	fd := s.findFunc(rel, goName)
+	if fd != nil {
+		d := &c20Dur{s: s, ok: true}
+		body := d.block(fd.Body.List)
+		if d.ok {
+			e.printf("/-- `%s` in %s, translated statement by statement -/\ndef %s (cs : List Char) : Bool × List Char :=\n  %s\n\n", goName, rel, lean, body)
+			return
+		}
+	}
+	e.errors = append(e.errors, "function "+goName+" in "+rel+" is outside the translated subset")
+	e.printf("def %s (cs : List Char) : Bool × List Char := (false, cs)\n\n", lean)
+}
+
+func c20Round4(s *source, e *emitter) {
+	sc := c20Dir + "scanner/scanner.go"
+	for _, p := range []string{"isDigit", "isLetter", "isIdentifierLetter", "isWhiteSpace"} {
+		e.c20PredDef(s, sc, "Scanner."+p, "sc_"+p)
+	}
+	if fd := s.findFunc(sc, "Scanner.scanIntOrDuration"); fd != nil {
+		ps, ok := c20RuneCases(s, fd, func(b []ast.Stmt) (string, bool) {
+			if len(b) == 1 && s.src(b[0]) == "return s.scanDuration(position)" {
+				return "scanDuration", true
+			}
+			return "", false
+		})
+		if !ok {
+			e.errors = append(e.errors, "switch s.ch of scanIntOrDuration not found")
+		}
+		e.c20PairList("sc_durStart", "runes that scanIntOrDuration hands to scanDuration", ps)
+	} else {
+		e.errors = append(e.errors, "Scanner.scanIntOrDuration not found")
+		e.c20PairList("sc_durStart", "MISSING", nil)
+	}
+	if fd := s.findFunc(sc, "Scanner.NextToken"); fd != nil {
+		ps, ok := c20RuneCases(s, fd, func(b []ast.Stmt) (string, bool) {
+			if len(b) == 1 {
+				t := s.src(b[0])
+				if strings.HasPrefix(t, "return s.newToken(token.") && strings.HasSuffix(t, "), nil") {
+					return strings.TrimSuffix(strings.TrimPrefix(t, "return s.newToken(token."), "), nil"), true
+				}
+			}
+			return "", false
+		})
+		if !ok {
+			e.errors = append(e.errors, "switch s.ch of NextToken not found")
+		}
+		e.c20PairList("sc_single", "NextToken: rune -> single-rune token (newToken)", ps)
+	} else {
+		e.errors = append(e.errors, "Scanner.NextToken not found")
+		e.c20PairList("sc_single", "MISSING", nil)
+	}
+	e.printf("/-- `s.ch`: the head of the runes not yet read, 0 behind the last one -/\ndef sc_cur (cs : List Char) : Char := match cs with | [] => Char.ofNat 0 | c :: _ => c\n\n")
+	for _, fn := range []string{"scanNanosecond", "scanMicrosecond", "scanMillisecond", "scanSecond", "scanMinute",
+		"scanMillisecondOrMinute", "scanHour", "scanDuration"} {
+		e.c20DurDef(s, sc, "Scanner."+fn)
+	}
+	for _, fn := range []string{"NextToken", "newToken", "readRune", "peekRune", "scanString", "scanAt", "scanIntOrDuration",
+		"illegalToken", "scanIdent", "scanLetterSet", "newPosition", "positionAt", "lineCount"} {
+		e.c20ExactDef(s, sc, "Scanner."+fn, "x_Scanner_"+fn)
+	}
+	e.c20ExactDef(s, sc, "NewScanner", "x_NewScanner")
+	tk := c20Dir + "token/token.go"
+	for _, fn := range []string{"Token.Is", "Token.IsType", "Token.Line", "Token.Fork", "Token.Valid", "Token.IsComment", "Token.IsDocument"} {
+		e.c20ExactDef(s, tk, fn, "x_"+strings.ReplaceAll(fn, ".", "_"))
+	}
+	e.c20ExactDef(s, tk, "LookupKeyword", "x_LookupKeyword")
+	e.c20ExactDef(s, tk, "NewIllegalToken", "x_NewIllegalToken")
+	e.c20ExactDef(s, c20Dir+"format/format.go", "File", "x_fmt_File")
+	e.c20ExactDef(s, c20Dir+"ast/ast.go", "AST.Format", "x_AST_Format")
+	e.c20ExactDef(s, c20Dir+"ast/ast.go", "peekOne", "x_peekOne")
+	e.c20ExactDef(s, c20Dir+"ast/writer.go", "Writer.write", "x_Writer_write")
+	e.c20ExactDef(s, c20Dir+"ast/writer.go", "Writer.WriteText", "x_Writer_WriteText")
+	e.c20ExactDef(s, c20Dir+"ast/writer.go", "Writer.Flush", "x_Writer_Flush")
+	e.c20ExactDef(s, c20Dir+"ast/writer.go", "withNode", "x_withNode")
+	for _, fn := range []string{"Parser.Parse", "Parser.CheckErrors", "Parser.curTokenIsKeyword", "Parser.peekTokenIs", "Parser.expectPeekToken", "New",
+		"Parser.curTokenIs", "Parser.curTokenIsNot", "Parser.curTokenIsNotEof", "Parser.peekTokenIsNot", "Parser.advanceIfPeekTokenIs",
+		"Parser.notExpectPeekToken", "Parser.notExpectPeekTokenGotComment", "Parser.expectIdentError", "isNil", "Parser.appendStmt", "Parser.hasNoErrors"} {
+		e.c20ExactDef(s, c20Dir+"parser/parser.go", fn, "x_"+strings.ReplaceAll(fn, ".", "_"))
+	}
+}
+
+// c20FullExact is c20Full with literal-preserving source text.
+func (e *emitter) c20ExactDef(s *source, rel, goName, lean string) {
+	fd := s.findFunc(rel, goName)
+	if fd == nil {
+		e.errors = append(e.errors, "function "+goName+" not found in "+rel)
+		e.stringList(lean, "MISSING: "+goName+" in "+rel, []string{"MISSING"})
+		return
+	}
+	c20ExactMode = true
+	items := c20Full(s, fd)
+	c20ExactMode = false
+	e.stringList(lean, "body of `"+goName+"` in "+rel+" (literals verbatim)", items)
+}
+
+var c20ExactMode bool
 
 func init() {
 	register("C20", func(s *source, e *emitter) {
@@ -504,5 +930,6 @@ func init() {
 		e.c20Skel(s, c20Dir+"format/format.go", "Source", "fmt_Source", func(n string) bool {
 			return n == "New" || n == "Parse" || n == "CheckErrors" || n == "Format"
 		})
+		c20Round4(s, e)
 	})
 }
